@@ -798,6 +798,10 @@ func (g *hlGen) build(kind string, ev *eval.BlockEvaluator) []*txntest.Txn {
 		t := txntest.Txn{Type: protocol.PaymentTx, Sender: snd, Receiver: g.anyAddr(), Amount: 1, Lease: lease}
 		t.FirstValid = ev.Round()
 		t.LastValid = ev.Round() + basics.Round(r.Intn(4))
+		if r.Chance(1, 3) {
+			// long leases stay active across commits and restarts
+			t.LastValid = ev.Round() + basics.Round(ev.ConsensusParams().MaxTxnLife) - basics.Round(r.Intn(3))
+		}
 		return one(t)
 	case "group":
 		n := r.Range(2, 5)
